@@ -99,6 +99,25 @@ T: Dict[str, Tuple[dict, dict, str]] = {
     "string_format": ({"n": "int", "s": "str"}, {"s": "str"}, "s = '%s-%d' % (s, n + {p})\ns = '{{}}!'.format(s)\n"),
     "set_ops": ({"xs": "list"}, {"out": "list"}, "out = sorted(set(xs) | {{{p}, 9}})\n"),
     "tuple_swap": ({"n": "int", "acc": "int"}, {"n": "int", "acc": "int"}, "n, acc = acc + {p}, n\n"),
+    "overused_string": ({"s": "str"}, {"out": "list"},
+                        "def paths(v):\n    a = 'some/path/to/something/cool' + v\n    b = 'some/path/to/something/cool' + v * {p}\n    c = 'some/path/to/something/cool'\n"
+                        "    e = 'some/path/to/something/cool'\n    f = 'some/path/to/something/cool'\n    return [a, b, c, e, f, 'some/path/to/something/cool']\nout = paths(s)\n"),
+    "if_flow_same_calls": ({"n": "int"}, {"out": "list"},
+                           "out = []\ndef do_stuff(v):\n    out.append(v)\n    return v\nx_1 = 11\ny_1 = 12 + {p}\nif n > 3:\n    do_stuff(x_1)\n    do_stuff(y_1 - x_1 ** 2)\n"
+                           "    out.append(do_stuff(y_1) - do_stuff(x_1))\nelse:\n    do_stuff(y_1)\n    do_stuff(x_1 - y_1 ** 2)\n    out.append(do_stuff(x_1) - do_stuff(y_1))\n"),
+    "open_read_close": ({"s": "str"}, {"s": "str"},
+                        "import os\nimport tempfile\nfd, tmp_path = tempfile.mkstemp()\nos.write(fd, (s * {p}).encode())\nos.close(fd)\nhandle = open(tmp_path)\ns = handle.read()\n"
+                        "handle.close()\nos.unlink(tmp_path)\n"),
+    "logging_format": ({"n": "int"}, {"acc": "int"},
+                       "import logging\nimport sys\nlogging.basicConfig(stream=sys.stdout, level=logging.INFO, format='%(message)s')\n"
+                       "logging.info('value: {{}} and {{}}'.format(n, {p}))\nlogging.warning(f'again: {{n}}')\nacc = n\n"),
+    "zip_zip": ({"xs": "list"}, {"out": "list"}, "rows = [xs, [x + {p} for x in xs]]\nout = [list(r) for r in zip(*zip(*rows))]\n"),
+    "subscript_loop": ({"xs": "list"}, {"out": "list"}, "out = [xs[i] for i in range(len(xs))]\nout.append({p})\n"),
+    "merge_dups": ({"n": "int"}, {"acc": "int"},
+                   "def first_fn(v):\n    return abs(v) + {p}\ndef second_fn(w):\n    return abs(w) + {p}\ndef third_fn(w):\n    return len(str(w)) + {p}\nacc = first_fn(n) * 100 + second_fn(-n) * 10 + third_fn(n)\n"),
+    "underscore_reader": ({"xs": "list"}, {"acc": "int"}, "acc = 0\nfor x in xs:\n    _ = x * {p}\n    acc += _\n"),
+    "static_method_first_line": ({"n": "int"}, {"acc": "int"},
+                                 "class Tool:\n    @staticmethod\n    def twice(v):\n        return v * 2 + {p}\nacc = Tool.twice(n) + Tool().twice(1)\n"),
     "with_nullcontext": ({"n": "int"}, {"acc": "int"}, "import contextlib\nwith contextlib.nullcontext(n + {p}) as got:\n    acc = got\n"),
 }
 
